@@ -82,6 +82,45 @@ HAND = [
   e = c
   return (d, e)
 '''),
+    ('ty:search_with_break', '''def f(x: int, y: float, b: bool, k: int):
+  found = 0
+  i = 0
+  while i < k:
+    if i + x > 1:
+      found = y
+      break
+    i = i + 1
+  r = found
+  return r
+'''),
+    ('ty:retype_then_continue', '''def f(x: int, y: float, b: bool, k: int):
+  m = 1
+  i = 0
+  while i < k:
+    i = i + 1
+    if b:
+      m = x > i
+      continue
+    pass
+    m = m + 1
+  r = m
+  z = r
+  return z
+'''),
+    ('ty:closure_after_break', '''def f(x: int, y: float, b: bool, k: int):
+  c = 1
+  def g(p: int):
+    return c + p
+  i = 0
+  while i < k:
+    i = i + 1
+    if i > x:
+      c = y
+      break
+    pass
+  r = g(i)
+  return r
+'''),
     ('ty:nonlocal_writer', '''def f(x: int, y: float, b: bool, k: int):
   a = 0
   def w(v: float):
@@ -132,7 +171,11 @@ def rand_program(seed, idx):
         out += ['else:'] + gen.ind(block(d + 1))
       return out
     if q < 0.9:
-      return ['for i%d in range(k):' % d] + gen.ind(block(d + 1))
+      body = block(d + 1)
+      if r.random() < 0.6:
+        body = body + ['if %s:' % r.choice(['x > i%d' % d, 'b', 'i%d == 1' % d])] + gen.ind(
+            ['%s = %s' % (r.choice(V), r.choice(rhs)), r.choice(['break', 'continue'])]) + ['pass'] + block(d + 1)
+      return ['w%d = 0' % d, 'while w%d < k:' % d] + gen.ind(['w%d = w%d + 1' % (d, d), 'i%d = w%d' % (d, d)] + body)
     return ['r%d = %s' % (d, r.choice(V))]
 
   def block(d):
